@@ -108,6 +108,34 @@ JudgeWin(c, out, err) ==
               [] c.fn = "cum_sum" -> \E s \in Orders(P) : \A pos \in DOMAIN s : O(s[pos]) = RunSum(s, pos)
     IN IF \A P \in Parts : okPart(P) THEN "ok" ELSE "values"
 
+(* "arrange": every sequence of key pairs (k1, k2) over {null, 1, 2}^2 up to AMaxLen rows, arrange(k1, k2) with every combination of *)
+(* descending / nulls_first / nulls_last on both keys, optionally followed by slice_head(2).  Expected (C02): the result is a       *)
+(* permutation of the rows that is sorted by the two keys (SQL sorts are not stable, so nothing more); with the slice: the first    *)
+(* two rows of SOME sorted order.                                                                                                    *)
+ArrRows == {<<a, b>> : a \in {99, 1, 2}, b \in {99, 1, 2}}
+ArrSeqs == UNION {[1..m -> ArrRows] : m \in 0..AMaxLen}
+ArrConfigs == {[verb |-> "arrange", rows |-> rs, d1 |-> d1, n1 |-> n1, d2 |-> d2, n2 |-> n2, take |-> tk] :
+                  rs \in ArrSeqs, d1 \in BOOLEAN, n1 \in {"first", "last"}, d2 \in BOOLEAN, n2 \in {"first", "last"}, tk \in {0, 2}}
+
+JudgeArrange(c, out, err) ==
+    IF err # "" THEN "unexpected-error"
+    ELSE
+    LET n == Len(c.rows)
+        K1(i) == Nv(c.rows[i][1])
+        K2(i) == Nv(c.rows[i][2])
+        B1(i, j) == Before1("int", K1(i), K1(j), c.d1, c.n1)
+        B2(i, j) == Before1("int", K2(i), K2(j), c.d2, c.n2)
+        Bef(i, j) == B1(i, j) \/ (~B1(j, i) /\ B2(i, j))          \* lexicographic
+        SortedSeq(s) == \A x, y \in DOMAIN s : x < y => ~Bef(s[y], s[x])
+        want == IF c.take = 0 THEN n ELSE MinI(c.take, n)
+    IN IF Len(out) # want THEN "row-count"
+       ELSE IF \E x, y \in DOMAIN out : x # y /\ out[x] = out[y] THEN "rows"
+       ELSE IF ~(\A x \in DOMAIN out : out[x] \in 1..n) THEN "rows"
+       ELSE IF ~SortedSeq(out) THEN "order"
+       ELSE IF c.take = 0 THEN "ok"
+       \* a prefix of a sorted order: no row left out sorts strictly before a row that was taken
+       ELSE IF \A i \in (1..n) \ {out[x] : x \in DOMAIN out} : \A x \in DOMAIN out : ~Bef(i, out[x]) THEN "ok" ELSE "rows"
+
 AggRows == {<<k, v>> : k \in {99, 1, 2}, v \in {99, -1, 2}}
 AggSeqs == UNION {[1..m -> AggRows] : m \in 0..AMaxLen}
 AggConfigs == {[verb |-> "agg", rows |-> rs, op |-> o, mode |-> md] :
@@ -182,6 +210,7 @@ ASSUME Mode = "gen" => /\ ("slices" \in GenVerbs => \A c \in SliceConfigs : Prin
                        /\ ("joinrows" \in GenVerbs => \A c \in JoinConfigs : JoinValid(c) => PrintT(ToJson(c)))
                        /\ ("win" \in GenVerbs => \A c \in WinConfigs : PrintT(ToJson(c)))
                        /\ ("agg" \in GenVerbs => \A c \in AggConfigs : PrintT(ToJson(c)))
+                       /\ ("arrange" \in GenVerbs => \A c \in ArrConfigs : PrintT(ToJson(c)))
 ASSUME Mode = "check" =>
     \A i \in DOMAIN Recs :
         LET r == Recs[i] IN
@@ -189,6 +218,7 @@ ASSUME Mode = "check" =>
                                             ELSE IF r.c.verb = "joinrows" THEN JudgeJoin(r.c, r.out, r.err)
                                             ELSE IF r.c.verb = "win" THEN JudgeWin(r.c, r.out, r.err)
                                             ELSE IF r.c.verb = "agg" THEN JudgeAgg(r.c, r.out, r.err)
+                                            ELSE IF r.c.verb = "arrange" THEN JudgeArrange(r.c, r.out, r.err)
                                             ELSE JudgeUnion(r.c, r.names, r.out, r.err)]))
 
 VARIABLE x
